@@ -14,6 +14,7 @@ RULES = {
     'C15.R3': 'None-ness per problem type: no ordering / arithmetic use of a possibly-absent value on any path an accepted argument set takes (option checks and instance generation)',
     'C15.R4': 'every documented bound is enforced by a guard that ends in parser.error, for each problem type it applies to',
     'C15.R6': 'an accepted run cannot fail numerically: the popularity weights never divide by n - 1 when a single agent can be ranked (n2 = 1 is a legal value)',
+    'C15.R7': 'every parse starts from scratch: no function of the option parser accumulates into a default argument (a table built in one call must not be seen by the next)',
     'C15.R5': 'nothing is written before the argument set is accepted: parse() dominates every call that can create a directory or open a file for writing',
 }
 
@@ -384,6 +385,7 @@ def run(rep, repo, tier):
                           construct='%s may be None in %s generation' % (d, T), loc=e.loc)
     # ---- R5 ----
     check_no_output_before_acceptance(rep, repo)
+    check_no_carried_state(rep, repo)
     from .c17 import division_safety
     division_safety(rep, repo, 'C15.R6')
 
@@ -587,6 +589,23 @@ def writers(repo):
                 w.add(q)
                 changed = True
     return w, direct
+
+
+def check_no_carried_state(rep, repo):
+    """R7: the required / banned tables and every other list the parser fills are fresh in each call"""
+    from ..lints import mutable_default_mutations
+    cls = repo.classes.get('Instance_options_parser', {})
+    n = 0
+    bad = []
+    for f in cls.values():
+        n += 1
+        for name, line, how in mutable_default_mutations(f):
+            bad.append((f, name, line, how))
+    for f, name, line, how in bad:
+        rep.fail('C15.R7', f.where, 'the tables a parse fills are created by that parse', got='%s fills its default argument %s (%s): the list is created once and shared by all later calls' % (f.name, name, how),
+                 want='a new list per call', construct='mutable default argument %s of %s' % (name, f.name), loc='%s:%d' % (f.relpath, line))
+    if not bad:
+        rep.ok('C15.R7', repo.method('Instance_options_parser', 'parse').where, 'no method of the option parser mutates a default argument (%d methods)' % n, got='none')
 
 
 def check_no_output_before_acceptance(rep, repo):
